@@ -104,7 +104,7 @@ def select(ctx, vecs):
         return lin, True
     sel = []
     for v in lin:
-        nocred = v["ck"] in ("none", "unknown", "expired") and v["ba"] in ("none", "wrong")
+        nocred = v["ck"] != "valid" and v["ba"] in ("none", "wrong")
         h = int(hashlib.sha1(("%d|%s" % (ctx.seed, v["rk"])).encode()).hexdigest()[:8], 16) / float(1 << 32)
         if v["viol"] or (nocred and v["sp"] == "canonical") or h < 0.30:
             sel.append(v)
@@ -198,6 +198,9 @@ def run(ctx):
         "mutating route refused for method": sum(1 for v in vecs if v["exp"] == ["m405"]),
         "mutating route refused for content type": sum(1 for v in vecs if v["exp"] == ["c415"]),
         "first run redirect": sum(1 for v in vecs if v["exp"] == ["redirInstall"]),
+        "logged-out cookie after a restart, protected": sum(1 for v in vecs if v["ck"] == "loggedOutRestarted" and v["exp"] and set(v["exp"]) <= {"deny403", "redirLogin"}),
+        "expired cookie after a restart, protected": sum(1 for v in vecs if v["ck"] == "expiredRestarted" and v["exp"] and set(v["exp"]) <= {"deny403", "redirLogin"}),
+        "chunked body without JSON content type refused": sum(1 for v in vecs if v["b"] == "chunked" and v["exp"] == ["c415"]),
     }
     empty = [k for k, n in guard.items() if n == 0]
     if empty and not spec_bad:
@@ -304,7 +307,7 @@ def run(ctx):
             raise vlib.Inconclusive(msg + ": extractor and code disagree")
         # the most telling witness first: plain GET, no cookie, no credentials
         conf.sort(key=lambda vo: (vo[0]["ck"] != "none", vo[0]["ba"] != "none", vo[0]["sp"] != "canonical", vo[0]["m"] != "GET",
-                                  vo[0]["b"], vo[0]["ct"] != "none", vo[0]["id"]))
+                                  vo[0]["b"] != "none", vo[0]["ct"] != "none", vo[0]["id"]))
         w, o = conf[0]
         rec = {"kind": "spec-violation", "requirement": req, "route": route, "tlc_invariant": mc["violated"],
                "vec": go_vec(w), "observed": o, "witnesses": len(witnesses), "confirmed_at_runtime": len(conf),
@@ -316,7 +319,7 @@ def run(ctx):
 
     # the most telling disagreements first: a handler that ran, canonical path, plain request
     reproduced.sort(key=lambda r: (r["possible"] != ["handler"],
-                                   not (r["vec"].get("decl") in ("POST", "PUT", "DELETE") and r["vec"]["ct"] == "form" and r["vec"]["b"]
+                                   not (r["vec"].get("decl") in ("POST", "PUT", "DELETE") and r["vec"]["ct"] != "json" and r["vec"]["b"] != "none"
                                         and r["vec"]["exp"] in (["m405"], ["c415"])),
                                    r["vec"]["sp"] != "canonical", r["vec"]["ck"] != "none",
                                    r["vec"]["ba"] != "none", r["vec"]["m"] != "GET", r["vec"]["id"]))
@@ -410,7 +413,7 @@ def replay(ctx, path):
         vin = ctx.path("c11_in_replay.ndjson")
         vlib.write_ndjson(vin, [])
         open(vin, "a").write(json.dumps({"id": 0, "fr": True, "hu": False, "pat": "/zz-none", "sub": "", "sp": "canonical",
-                                         "m": "GET", "ct": "none", "b": False, "ck": "none", "ba": "none", "to": "/zz-none",
+                                         "m": "GET", "ct": "none", "b": "none", "ck": "none", "ba": "none", "to": "/zz-none",
                                          "exp": []}) + "\n")
         run_arena(ctx, "TestZZVerifC11Real", vin, rj, "replay", trace=trace, trace_n=rec.get("trace_n", 3000))
         verdict = validate_trace(ctx, tla, trace)
